@@ -155,11 +155,17 @@ Proof.
   apply find_split_bounds in Ep. cbn [plus] in Ep. destruct Ep as [_ [Ep1 Ep2]].
   assert (Hn : zlen raw = Z.of_nat (length raw)) by reflexivity.
   rewrite slice_ok by lia. cbn [idx].
-  replace (Z.to_nat (Z.of_nat (pe - 1))) with (pe - 1)%nat by lia.
+  set (aq := firstn _ _).
+  assert (Haq : length aq = (length raw - pe)%nat).
+  { unfold aq. rewrite firstn_length, skipn_length. lia. }
+  pose proof (skip_quoted_le aq) as Hsk.
+  set (ie := (pe - 1 + 1 + skip_quoted aq)%nat) in *.
+  assert (Hie : (pe <= ie <= length raw)%nat) by (unfold ie; lia).
+  rewrite slice_ok by lia. cbn [idx].
   set (rest := firstn _ _).
-  assert (Hrest : length rest = (length raw - (pe - 1))%nat).
+  assert (Hrest : length rest = (length raw - ie)%nat).
   { unfold rest. rewrite firstn_length, skipn_length. lia. }
-  destruct (o_split_from rest (pe - 1)) as [[os oe]|] eqn:Eo; [|constructor].
+  destruct (o_split_from rest ie) as [[os oe]|] eqn:Eo; [|constructor].
   apply find_split_bounds in Eo. destruct Eo as [Eo0 [Eo1 Eo2]].
   rewrite slice_ok by lia. cbn [idx]. rewrite slice_ok by lia. cbn [idx]. rewrite slice_ok by lia. cbn [idx].
   match goal with |- context [parse_node ?x] =>
